@@ -5,7 +5,8 @@ FileSh(p) == [sec |-> "file", pre |-> p]
 ShapesQ == {RawSh("cxx"), FileSh(<<>>), FileSh(<<5, 13, 10, 7>>)}
 ShapesT == {RawSh("cxx"), FileSh(<<>>), FileSh(<<5, 13, 10, 7>>), FileSh(<<10>>)}
 DatasQ == {<<1>>, <<2, 10>>, <<13, 10, 3, 4>>}
-DatasT == {<<1>>, <<10>>, <<2, 10>>, <<13>>, <<13, 10, 3, 4>>, <<6, 13, 10, 10, 7, 8>>}
+DatasT == {<<1>>, <<2, 10>>, <<13>>, <<13, 10, 3, 4>>, <<6, 13, 10, 10, 7, 8>>}
+RawDatasQ == {<<1>>, <<2, 3, 4>>}
 KsQ == {1, 2, 1000000}
 KsT == {1, 2, 3, 1000000}
 OA(m, nl, fl, buf) == [m |-> m, nl |-> nl, fl |-> fl, buf |-> buf, via |-> "c"]
